@@ -79,7 +79,8 @@ CHECKS = {
              'power in every entry; __call__ (pinv rule, convolution orientation/origin/trimming) maps L+sum_j a_j h^k_j to L in '
              'every output slot for ALL L, a_j in [-1,1] (real ratios and complex spiral ratios) within the backward-error bound of '
              'the float weights; output counts, short sequences, non-negative error estimates on all _estimate_error branches, '
-             'column independence. Bounds: length<=8, num_terms<=5, step<=4, order<=8, stated ratio grid.',
+             'column independence; one Richardson object reused with other sequences / changed attributes gives the same terms as a '
+             'fresh object. Bounds: length<=8, num_terms<=5, step<=4, order<=8, stated ratio grid.',
         note='Trusted: z3 (QF_LRA / QF_UFLRA); the convolve1d reference (differentially validated, including reflected boundary '
              'rows, on every run); float weights and double-rounded sequence coefficients as exact rationals. Known finding '
              'listed in known_findings.json (num_terms=0 error-array length).',
@@ -90,8 +91,9 @@ CHECKS = {
              'decision mixes columns, the outputs of a column are terms over that column only, paths agreeing on a column\'s '
              'decisions return identical terms (also against the single-column run), gather/reshape is C-order; _vstack puts '
              'evaluation i in row i and element j in column j; end-to-end Derivative on x with 0..3 axes and per-element symbolic '
-             'coefficients: shape preserved, entry idx depends only on element idx and equals the scalar run; *args/**kwds '
-             'forwarded on every call.',
+             'coefficients (C and Fortran memory order): shape preserved, entry idx depends only on element idx and equals the '
+             'scalar run; tables with all-NaN columns: the other columns are unaffected and the NaN column returns NaN; '
+             '*args/**kwds forwarded on every call.',
         note='Trusted: z3 for path feasibility; exact arithmetic. Bit-identity in float64 follows only under the stated '
              'assumption that numpy elementwise kernels are position-independent. Bounds: <= 7 rows, <= 4 columns in the forking unit.',
         technique=TECH + '; non-interference by self-composition over solver-validated paths',
@@ -102,7 +104,9 @@ CHECKS = {
              '- warm rule == cold rule on every feasible path; step generator run from an arbitrary symbolic remembered state - '
              'output and branch decisions contain no pre-state symbol; Derivative setter round trips with symbolic intermediate '
              'values - configuration digest equals a fresh object; reuse sequences (other point, shared generator, n changed and '
-             'restored) - value, error estimate and final step are the same terms as a fresh object\'s.',
+             'restored, method switched) for Derivative and for Jacobian / Gradient / Hessian / Hessdiag / Limit - value, error '
+             'estimate and final step are the same terms as a fresh object\'s; a generator run after a REAL earlier call with '
+             'another (n, order) equals a fresh generator\'s run; CStepGenerator likewise.',
         note='Trusted: z3; cache entries are modelled as functions of the arguments passed to _fd_matrix (token stub); '
              'get_base_step uninterpreted in the generator obligation. Concurrent threads and long numeric histories are outside '
              'the claim.',
@@ -113,7 +117,8 @@ CHECKS = {
              '(closed form, order, strict geometric decrease, nothing for a zero base); Min/MaxStepGenerator with symbolic x and '
              'base (nominal step max(log(1.718+|x|),1) with log uninterpreted, user nominal step, documented defaults); counting '
              'logic and the coupling default-count >= rule length for UNBOUNDED n, order (CrossHair, confirmed over all paths); '
-             'make_exact in float64 (z3 FP); CStepGenerator radial/spiral closed form, default count, path guard; default_scale '
+             'make_exact in float64 (z3 FP); CStepGenerator radial/spiral closed form for positive and negative dtheta, default count, '
+             'path guard; a default base step is recomputed per call; default_scale '
              'against a closed-form table (n, order <= 10).',
         note='Trusted: z3, CrossHair; exact arithmetic except the make_exact lemma; non-binary ratios compared up to 8 eps (float '
              'power rounding). The default_scale table is a configuration table (enumerated, not symbolic).',
@@ -122,8 +127,8 @@ CHECKS = {
     'C11': dict(
         text='Bounded solver verdict: the real __call__ of all five derivative classes with method complex / multicomplex is '
              'executed on a symbolic complex point (some imaginary part non-zero) and/or a function with a symbolic non-zero '
-             'imaginary value; all paths explored (z3 feasibility); every feasible path raises ValueError, a returning path is the '
-             'counterexample. Integer / string guards (multicomplex n>2, Residue order<=pole_order, unknown Limit path) confirmed by '
+             'imaginary value, for n = 1..4 (as far as the method admits) and with full_output on and off; all paths explored (z3 '
+             'feasibility); every feasible path raises ValueError, a returning path is the counterexample. Integer / string guards (multicomplex n>2, Residue order<=pole_order, unknown Limit path) confirmed by '
              'CrossHair for unbounded values; length guards (fd_weights_all, fd_derivative, directionaldiff, too few steps, '
              'wrong-size function output) over every length within the bound.',
         note='Trusted: z3, CrossHair; numpy.iscomplex semantics (imaginary part non-zero); dimension <= 3, lengths <= 8.',
@@ -144,7 +149,8 @@ CHECKS = {
     'C13': dict(
         text='Bounded solver verdict on the real dea3 executed on symbolic arrays: for ALL real inputs abserr>=0 and '
              'abserr>=|result-v2| (hence honest against any X the inputs are within t of), element independence, inputs '
-             'unmodified, symmetric=True only trims; for all L,a,q in a 30-decade box on the Shanks branch |result-L|<=1e-250 '
+             'unmodified, symmetric=True only trims; the documented guards, restated from the inputs, decide between Shanks value '
+             'and fallback v2 exactly as documented; for all L,a,q in a 30-decade box on the Shanks branch |result-L|<=1e-250 '
              '(QF_NRA); IEEE totality (finite, non-negative abserr) bit-blasted in z3 FP: float32 with rescaled constants in the '
              'quick tier, float64 with the real constants and |e|<=1e100 in the thorough tier.',
         note='Trusted: z3 (NRA, FP); symbolic numpy layer (validated against the float library on random and tie inputs every '
@@ -156,7 +162,7 @@ CHECKS = {
              'Hankel-determinant Shanks entry, and a limit plus k geometric transients is recovered from 2k+1 terms for all '
              'parameters (k<=2, 3 thorough). Dea (real class): one __call__ from an arbitrary symbolic table for every control '
              'state (n, nres class), all comparison outcomes explored with z3 deciding feasibility; per path index safety, no '
-             'exception, abserr>=5*eps*|result|; exhaustive search of the finite control graph gives "any length" for limexp in '
+             'exception, every divisor non-zero, abserr>=5*eps*|result|; EpsAlg guard threshold <= 1e-30; exhaustive search of the finite control graph gives "any length" for limexp in '
              '{3,5,7} (odd <=21 thorough); first terms agree with dea3.',
         note='Trusted: z3; table contents arbitrary at every call (over-approximation of histories, sound for absence of '
              'violations); reciprocal of symbolic differences uninterpreted; abstract counterexamples are reported only when a '
@@ -167,14 +173,15 @@ CHECKS = {
         text='Bounded solver verdict on the real Fornberg recursion: fd_weights_all executed on fully symbolic nodes and x0 '
              '(m<=4) and on concrete rational node sets with symbolic x0 and a symbolic polynomial (m<=14, six node families): '
              'every row k satisfies the Lagrange-derivative moment identities for all nodes / x0 / coefficients; fd_weights is '
-             'row n; n>=len(x) raises ValueError.',
+             'row n; an earlier result is unchanged by a later call (no shared buffer); n>=len(x) raises ValueError.',
         note='Trusted: z3 polynomial arithmetic (simplify + nlsat); exact arithmetic (rounding scaled by node conditioning is '
              'outside the claim); nodes pairwise distinct. Trace validated against the float library per node set.',
         technique=TECH + ' (polynomial identities, QF_NRA)',
         design='3/C15'),
     'C16': dict(
         text='Bounded solver verdict on the real fd_derivative: samples of a symbolic polynomial of degree 2*(n//2+m) on exact '
-             'rational grids (uniform / non-uniform, increasing / decreasing, N up to 2mm+6, 24 thorough) and on fully symbolic '
+             'rational grids (uniform / non-uniform / nearly uniform / width 1e-7, increasing / decreasing, N up to 2mm+6, 24 '
+             'thorough) and on fully symbolic '
              'grids for (n,m)=(1,1): every output index (both boundary blocks and the interior window) equals the exact n-th '
              'derivative for all coefficients; output length; degree 2mm+2 twin; misuse guards.',
         note='Trusted: z3 (linear / polynomial identities); exact arithmetic on exact rational grid constants; trace validated '
@@ -184,8 +191,8 @@ CHECKS = {
     'C18': dict(
         text='RESTRICTED sub-claim, bounded solver verdict on the real Limit / Residue: with a symbolic real z0 every evaluation '
              'point after the probe lies above (below) z0 for method above (below) and equals z0 + sign*step; finite entries of '
-             'f(z0) are returned as the same term with zero error estimate for every NaN pattern (length <= 3) and the limit is '
-             'taken at the NaN positions only; on the polynomial limit model with symbolic coefficients every Richardson row inside '
+             'f(z0) are returned as the same term with zero error estimate for every NaN pattern (length <= 3, singular points '
+             'not sorted, limit value tied to the identity of the point) and the limit is taken at the NaN positions only; on the polynomial limit model with symbolic coefficients every Richardson row inside '
              '_lim and the end-to-end value equal the limit within the backward-error bound (orders 1..6, above/below, radial/spiral, '
              'real/complex z0); Residue with poles of order 1..3 returns g(z0). Transcendental kernels and error-estimate '
              'calibration are not claimed.',
